@@ -48,4 +48,18 @@ META = {
         "note": _common_note + "The writer model escapes {space,-,|,/,\\} in tags, i.e. it is the writer after fix commit 8c39a01.",
         "technique": "Lean 4 proof: parser-state invariant by induction over the written characters; differential correspondence",
     },
+    "C03": {
+        "text": "Unbounded Lean theorems over the mirrored tokenized parser ((escape, c) state machine with the Rust variables) and "
+                "writer: for every fully segmented sentence (non-empty NUL-free text incl. spaces/slashes/backslashes, non-empty "
+                "NUL-free tags) parse(write s) returns the same text, boundaries and per-token tags up to trailing absent tags "
+                "(C03_roundtrip); every accepted string yields such a sentence (C03_parsed_wf); write-after-parse is idempotent on "
+                "every accepted string (C03_idempotent). Tied to /repo by random round trips (35-45% special characters), "
+                "exhaustive strings (len<=4/6 over 7 symbols incl. NUL, 4-byte chars), and an implementation-side oracle that also "
+                "checks the written bytes are valid UTF-8.",
+        "design_ref": "DESIGN.md §6 C03",
+        "note": _common_note + "The byte-wise escaper of the Rust writer is modelled character-wise; that the inserted 0x5C bytes keep the "
+                "buffer valid UTF-8 is checked on the implementation (from_utf8 on every written buffer), not proved (C03_utf8 is not "
+                "stated in Lean yet).",
+        "technique": "Lean 4 proof: parser-state invariant by induction over tokens and escaped runs; differential correspondence",
+    },
 }
